@@ -307,6 +307,27 @@ class Repo:
                     out.append(c)
         return out
 
+    def all_methods(self, cname_or_cls):
+        """name -> FuncInfo of every method an instance of the class has from the package (its own body first, then
+        mixins / bases in MRO order)"""
+        c = self.cls(cname_or_cls) if isinstance(cname_or_cls, str) else cname_or_cls
+        out = {}
+        for k in self.mro(c):
+            for nm, f in k.methods.items():
+                out.setdefault(nm, f)
+        return out
+
+    def instance_cls(self, c):
+        """the class whose instances run a method defined in `c`: a mixin / hoisted base with exactly one most-derived
+        descendant in the package stands for that descendant (its class constants and sibling methods live there)"""
+        if c is None:
+            return None
+        subs = self.subclasses(c.short)
+        if not subs:
+            return c
+        leaves = [k for k in subs if not self.subclasses(k.short)]
+        return leaves[0] if len(leaves) == 1 else c
+
     def method(self, cname, mname, required=True) -> FuncInfo | None:
         c = self.cls(cname, required)
         if c is None:
@@ -401,7 +422,7 @@ class Repo:
                 tm = self._import_target(mod, expr.id)
                 if tm is not None:
                     m2, nm = tm
-                    if nm in m2.consts:
+                    if nm is not None and nm in m2.consts:
                         return self.fold(m2.consts[nm], m2, None, env, depth + 1)
             if mod is None and cls is None:
                 # no context given: a module-level constant that is defined in exactly one module
@@ -510,7 +531,7 @@ class Repo:
         except Unfoldable:
             return default
 
-    def _import_target(self, mod: Mod, local):
+    def _import_target(self, mod: Mod, local, _depth=0):
         level, module, name = mod.imports[local]
         # resolve relative to mod
         base = Path(mod.rel).parent
@@ -530,9 +551,26 @@ class Repo:
             cand = str(Path(cand))
             if (self.pkg / cand).exists():
                 try:
-                    return self.mod(cand), name
+                    m2 = self.mod(cand)
                 except AnalysisError:
                     return None
+                if name in m2.consts or name in m2.classes or name in m2.functions or name in getattr(m2, "dropped_functions", {}):
+                    return m2, name
+                # `from . import helpers`: the name is a sub-module of the package -> (module, None)
+                if cand.endswith("__init__.py"):
+                    for sub in (f"{d}/{name}.py", f"{d}/{name}/__init__.py"):
+                        sub = str(Path(sub))
+                        if (self.pkg / sub).exists():
+                            try:
+                                return self.mod(sub), None
+                            except AnalysisError:
+                                return None
+                # re-exported: the module imports the name itself (`from .impl import X` in the old home of X)
+                if name in m2.imports and _depth < 6 and m2 is not mod:
+                    r = self._import_target(m2, name, _depth + 1)
+                    if r is not None:
+                        return r
+                return m2, name
         return None
 
 
